@@ -31,11 +31,11 @@ RULE = ('Hypothesis call sequences (3-25 steps) on one SqParser: parse(src), eva
 ASSUMPTIONS = ['answers of the fresh world are memoised by (call, source, names contents, budget) when the names hold no '
                'callables - sound because that world never carries history']
 
-VALID = ['1 / 3', 'x / 7', '2 ** 0.5', 'len(y)', 'sum(y) + len(y)', 'y | len', 'fz9(1)', 'match_all("a1b2", "[0-9]") | push(9)', 'match_all("a1b2", "[0-9]")', 'match_groups("ab", "(a)(b)").pop()', 'match_groups("ab", "(a)(b)")',
+VALID = ['1', '1.0', '1.00', 'str(1.0)', 'str(1)', 'x + 1.0', '[2.50, 2.5]', 'str(2.5) + str(2.50)', '"1.0" + 1.0', 'True == 1', '1 / 3', 'x / 7', '2 ** 0.5', 'len(y)', 'sum(y) + len(y)', 'y | len', 'fz9(1)', 'match_all("a1b2", "[0-9]") | push(9)', 'match_all("a1b2", "[0-9]")', 'match_groups("ab", "(a)(b)").pop()', 'match_groups("ab", "(a)(b)")',
          'sorted(y) | push(0)', 'sorted(y)', 'split("a b") | push("c")', 'split("a b")', 'x + 1', 'y = [1,\n 2]\nlen(y)', 'a = 1\nb = 2\na + b', 'x = 1; y = 2\nx + y', '[1, 2] | map(v => v * x)', '{"a": [1,\n2]}',
          'z = x\nz', 'f(\n1,\n2\n)' , 'str(x) + "\\n"', '# only a comment', '', 'x if x else 0', 'q = [\n]\nq', 'k = {\n"a": 1\n}\nk["a"]']
 LEXERR = ['x $ 1', '"unterminated', 'a ? b', '%x', 'x = 1\ny = @', '\x0cx', 'x\r y']
-SYNERR = ['1 +', 'f(', 'x = (1 + 2', '[1, 2', '{"a": 1', 'x = )', 'a b', ')', 'x = [1,\n2', '(1 + 2))\nx', 'f(1, 2]]', 'del', 'x +* 2',
+SYNERR = ['1 /* unclosed', '/* c */ 1', 'x = 1 /*', '"""doc', "'''q", '<!-- x', 'a ${', '`x', '1 // 2', 'x -- y', '(* c', '#| x\n1 |#', '{{', '1 +', 'f(', 'x = (1 + 2', '[1, 2', '{"a": 1', 'x = )', 'a b', ')', 'x = [1,\n2', '(1 + 2))\nx', 'f(1, 2]]', 'del', 'x +* 2',
           '{', '((', 'a[1', 'x = (\n(\n(', ']]]', 'for', 'while x', 'a b\nc d']
 RUNERR = ['(0 - 8) ** 0.5', '0 ** 0', '10 ** 1000000', '[1, 0 - 4] | map(v => v ** 0.5)', 'undefined_v + 1', 'x / 0', 'y[99]', 'nofn(1)', '[].pop()', 'x.push(1)', 'uu += 1', 'len(1, 2, 3)']
 LAMBDA_DEF = ['g = v => v + 1', 'g = v => v + x', 'g = (a, b) => a', 'g = v => 1 if v <= 1 else v * g(v - 1)', 'h = v => [v] | map(w => w * 2)']
